@@ -232,6 +232,54 @@ def params_equal(a, b):
     return None
 
 
+def compare_result(result, loaded, opts, rec, ctx, tag="result"):
+    """Parameters, histories, statistics, datasets of a loaded result against the result that was saved."""
+    for nm, a, b in (("optimized_parameters", result.optimized_parameters, loaded.optimized_parameters), ("initial_parameters", result.initial_parameters, loaded.initial_parameters)):
+        d = params_equal(a, b)
+        if d:
+            rec.violation(f"{tag}:{nm}-changed", ctx, d)
+            return False
+    ha, hb = result.parameter_history, loaded.parameter_history
+    if list(ha.parameter_labels) != list(hb.parameter_labels) or not np.array_equal(np.asarray(ha.parameters, dtype=float), np.asarray(hb.parameters, dtype=float), equal_nan=True):
+        same_shape = np.shape(ha.parameters) == np.shape(hb.parameters)
+        d = float(np.nanmax(np.abs(np.asarray(ha.parameters, dtype=float) - np.asarray(hb.parameters, dtype=float)))) if same_shape else float("inf")
+        rec.violation(f"{tag}:parameter_history-changed", ctx, f"max abs difference {d:.3e}")
+        return False
+    oa, ob = result.optimization_history, loaded.optimization_history
+    try:
+        da_, db_ = oa.data.reset_index(), ob.data.reset_index()
+        if list(da_.columns) != list(db_.columns) or not np.allclose(da_.values.astype(float), db_.values.astype(float), rtol=1e-12, equal_nan=True):
+            rec.violation(f"{tag}:optimization_history-changed", ctx, "optimization history differs after loading")
+    except Exception as e:  # noqa
+        rec.note(f"optimization history comparison skipped: {type(e).__name__}")
+    for f in PERSISTED_STATS:
+        x, y = getattr(result, f), getattr(loaded, f)
+        if isinstance(x, float):
+            if not (x == y or (x != x and y != y)):
+                rec.violation(f"{tag}:statistic-changed:{f}", ctx, f"{f}: {x!r} vs {y!r}")
+        elif x != y:
+            rec.violation(f"{tag}:statistic-changed:{f}", ctx, f"{f}: {x!r} vs {y!r}")
+    for label in result.data:
+        if label not in loaded.data:
+            rec.violation(f"{tag}:dataset-missing", ctx, label)
+            continue
+        a, b = result.data[label], loaded.data[label]
+        names = set(a.data_vars) if opts.data_filter is None else set(opts.data_filter)
+        for v in names:
+            if v not in b:
+                rec.violation(f"{tag}:dataset-variable-missing", ctx, f"{label}.{v}")
+                continue
+            if a[v].dims != b[v].dims or a[v].dtype != b[v].dtype or not np.array_equal(a[v].values, b[v].values, equal_nan=a[v].dtype.kind == "f"):
+                rec.violation(f"{tag}:dataset-variable-changed:{'dtype' if a[v].dtype != b[v].dtype else 'values'}", ctx, f"{label}.{v}: dims {a[v].dims} vs {b[v].dims}, dtype {a[v].dtype} vs {b[v].dtype}")
+        for cname in a.coords:
+            if cname in b.coords and any(d in (a[v].dims if v in a else ()) for v in names for d in a.coords[cname].dims):
+                ca, cb = a.coords[cname].values, b.coords[cname].values
+                same = np.array_equal(ca, cb, equal_nan=True) if ca.dtype.kind == "f" else list(map(str, ca.ravel())) == list(map(str, cb.ravel()))
+                if not same:
+                    rec.violation(f"{tag}:dataset-coordinate-changed", ctx, f"{label}.{cname}: {ca[:4]} vs {cb[:4]}")
+    return True
+
+
 def run_result(rng, rec, log, scratch, idx):
     from glotaran.io import SAVING_OPTIONS_DEFAULT, SAVING_OPTIONS_MINIMAL, SavingOptions, load_result, save_result
     from glotaran.optimization.optimize import optimize
@@ -292,49 +340,42 @@ def run_result(rng, rec, log, scratch, idx):
     finally:
         os.chdir(old)
     rec.count("results_roundtripped")
-    for nm, a, b in (("optimized_parameters", result.optimized_parameters, loaded.optimized_parameters), ("initial_parameters", result.initial_parameters, loaded.initial_parameters)):
-        d = params_equal(a, b)
-        if d:
-            rec.violation(f"result:{nm}-changed", ctx, d)
-            return None
-    ha, hb = result.parameter_history, loaded.parameter_history
-    if list(ha.parameter_labels) != list(hb.parameter_labels) or not np.array_equal(np.asarray(ha.parameters, dtype=float), np.asarray(hb.parameters, dtype=float), equal_nan=True):
-        same_shape = np.shape(ha.parameters) == np.shape(hb.parameters)
-        d = float(np.nanmax(np.abs(np.asarray(ha.parameters, dtype=float) - np.asarray(hb.parameters, dtype=float)))) if same_shape else float("inf")
-        rec.violation("result:parameter_history-changed", ctx, f"max abs difference {d:.3e}")
+    if not compare_result(result, loaded, opts, rec, ctx):
         return None
-    oa, ob = result.optimization_history, loaded.optimization_history
+    # second generation: the LOADED result saved to another folder must be self-contained there (all references
+    # relative to and inside the new folder), also after the first folder is gone
+    second = base / "second" / "gen2"
+    (base / "second").mkdir()
     try:
-        da_, db_ = oa.data.reset_index(), ob.data.reset_index()
-        if list(da_.columns) != list(db_.columns) or not np.allclose(da_.values.astype(float), db_.values.astype(float), rtol=1e-12, equal_nan=True):
-            rec.violation("result:optimization_history-changed", ctx, "optimization history differs after loading")
-    except Exception as e:  # noqa
-        rec.note(f"optimization history comparison skipped: {type(e).__name__}")
-    for f in PERSISTED_STATS:
-        x, y = getattr(result, f), getattr(loaded, f)
-        if isinstance(x, float):
-            if not (x == y or (x != x and y != y)):
-                rec.violation(f"result:statistic-changed:{f}", ctx, f"{f}: {x!r} vs {y!r}")
-        elif x != y:
-            rec.violation(f"result:statistic-changed:{f}", ctx, f"{f}: {x!r} vs {y!r}")
-    for label in result.data:
-        if label not in loaded.data:
-            rec.violation("result:dataset-missing", ctx, label)
-            continue
-        a, b = result.data[label], loaded.data[label]
-        names = set(a.data_vars) if opts.data_filter is None else set(opts.data_filter)
-        for v in names:
-            if v not in b:
-                rec.violation("result:dataset-variable-missing", ctx, f"{label}.{v}")
-                continue
-            if a[v].dims != b[v].dims or a[v].dtype != b[v].dtype or not np.array_equal(a[v].values, b[v].values, equal_nan=a[v].dtype.kind == "f"):
-                rec.violation(f"result:dataset-variable-changed:{'dtype' if a[v].dtype != b[v].dtype else 'values'}", ctx, f"{label}.{v}: dims {a[v].dims} vs {b[v].dims}, dtype {a[v].dtype} vs {b[v].dtype}")
-        for cname in a.coords:
-            if cname in b.coords and any(d in (a[v].dims if v in a else ()) for v in names for d in a.coords[cname].dims):
-                ca, cb = a.coords[cname].values, b.coords[cname].values
-                same = np.array_equal(ca, cb, equal_nan=True) if ca.dtype.kind == "f" else list(map(str, ca.ravel())) == list(map(str, cb.ravel()))
-                if not same:
-                    rec.violation("result:dataset-coordinate-changed", ctx, f"{label}.{cname}: {ca[:4]} vs {cb[:4]}")
+        os.chdir(base / "second")
+        tgt2 = (second / "result.yml") if rng.integers(2) else Path("gen2") / "result.yml"
+        try:
+            with warnings.catch_warnings():
+                warnings.simplefilter("ignore")
+                save_result(loaded, tgt2, saving_options=opts)
+        except Exception as e:  # noqa
+            rec.violation(f"result2:save-loaded-raises:{type(e).__name__}", ctx, f"saving a loaded result elsewhere: {type(e).__name__}: {str(e)[:200]}")
+            return None
+        for fname in ("result.yml", "scheme.yml"):
+            text = (second / fname).read_text()
+            outside = [m for m in re.findall(r":\s*['\"]?((?:/|\.\./)[^\s'\"]+)", text)] + ([str(base)] if str(base) in text else []) + (["moved"] if re.search(r"\bmoved/", text) else [])
+            if outside:
+                rec.violation(f"result2:reference-outside-folder:{fname}", ctx, f"{fname} of a re-saved loaded result refers outside its folder: {outside[:3]}")
+                return None
+        shutil.rmtree(moved)
+        os.chdir(base)
+        try:
+            with warnings.catch_warnings():
+                warnings.simplefilter("ignore")
+                loaded2 = load_result(second / "result.yml")
+        except Exception as e:  # noqa
+            rec.violation(f"result2:load-raises:{type(e).__name__}", ctx, f"loading the re-saved result after the first folder was removed: {type(e).__name__}: {str(e)[:200]}")
+            return None
+    finally:
+        os.chdir(old)
+    rec.count("results_second_generation")
+    if not compare_result(result, loaded2, opts, rec, ctx, tag="result2"):
+        return None
     return len(jc["datasets"]) >= 2
 
 
